@@ -1,5 +1,6 @@
 """C02 - stream split/reconstruct is bit-exact whenever the split succeeds."""
 from deflate_common import *
+from stream_common import *
 
 
 def run_check(tier, seed, replay=None):
@@ -15,6 +16,18 @@ def run_check(tier, seed, replay=None):
         raise ToolError("vacuity: the library accepted none of the %d generated streams" % n)
     dres, _ = record_driver(wd, tier, seed + 3, traces=0)
     account(c, dres, "C02", "drivers")
+    # T: joint encode/decode traces: mirror of operations, predictor states, exact reconstruction
+    tr = record_stream_traces(wd, tier, seed + 3, extra=gen_hex(wd, gen))
+    for kind, x, case in validate_stream_traces(c, wd, tr):
+        ev = x["event"]
+        if kind in ("mirror", "predictor-state-differs", "end", "panic", "pending"):
+            c.violation("stream:" + kind, "encode and decode side are not mirror images (%s) at %s [%s]" % (
+                kind, json.dumps(ev)[:300], x["reset"].get("label")), {"kind": "deflate-hex", "hex": case.get("hex"), "event": ev})
+        elif kind == "header":
+            c.note("header deviates from Params.tla on %s (C08's business)" % x["reset"].get("label"))
+        else:
+            raise ToolError("Trace_Stream and the implementation disagree on the operation grammar (%s) at %s; "
+                            "the specification needs attention" % (kind, json.dumps(ev)[:300]))
     for r in res[:2]:
         c.sample({"generated_stream": {k: r.get(k) for k in ("id", "lib", "len", "plain_len", "feat")}})
     for r in dres[:3]:
